@@ -19,6 +19,9 @@ def configs(tier, seed):
             cfgs.append(("c05", b, KEYS[1:3], ("s", "L", "X"), True, 5 if b == "mem" else 4, seed))
         # weak-referenceable results (arrays the caller keeps holding), fitting and oversize, next to strings
         cfgs.append(("c05", "fsc4", KEYS[1:3], ("s", "A", "AX"), True, 4, seed))
+        # equal results memoized again (same bytes, another memento): look-ups must give the memento written last
+        cfgs.append(("c05", "fsc4", KEYS[1:3], ("s", "D"), True, 4, seed))
+        cfgs.append(("c05", "fsc64", KEYS[1:3], ("D",), True, 4, seed))
         # every history kept apart (no state merging) on a small alphabet: hidden state a change may
         # add to the library cannot be merged away by the canonical form
         for b in ("mem", "fs", "fsc4"):
